@@ -64,7 +64,12 @@ def gen_case(rng, opts=None):
             tmpl = (lambda x: "{{ " + x + " }}") if rng.random() < opts.get("p_template", 0.0) else (lambda x: x)
             am["l_" + a] = tmpl(a)
             if r > 0.85:
-                am["l2_" + a] = tmpl(a)
+                # the second local attribute fed by the same remote one is mapped plainly when the
+                # first goes through a template, and conversely, in half of the cases
+                if opts.get("p_template") and rng.random() < 0.5:
+                    am["l2_" + a] = a if am["l_" + a] != a else "{{ " + a + " }}"
+                else:
+                    am["l2_" + a] = tmpl(a)
         if rng.random() < opts.get("p_const", 0.0):
             # a local attribute set by a Jinja template without any remote variable (constant)
             am["lc_k"] = "{{ 'kc' }}"
